@@ -208,11 +208,15 @@ pub fn run_seam(dir: &Path, dur: SDur, max_log_size: u64, hist: &[SOp], record: 
     let mut next_data = 0u64;
     // floor bookkeeping: instants are annotated afterwards from `started_at_instant`
     let mut started_at: Vec<usize> = vec![]; // per instant index: records started when the instant was taken
+    // records covered by a sync() / checkpoint() call that returned Ok (a promise, whether or not an fsync was observed)
+    let promised = Cell::new(0usize);
+    let mut promised_at: Vec<usize> = vec![];
     let mut note_instants = |run: &SeamRun, started_at: &mut Vec<usize>| {
         if record {
             let n = Recorder::with(|r| r.instants.len());
             while started_at.len() < n {
                 started_at.push(run.logged.len());
+                promised_at.push(promised.get());
             }
         }
     };
@@ -223,7 +227,8 @@ pub fn run_seam(dir: &Path, dur: SDur, max_log_size: u64, hist: &[SOp], record: 
         }
         let Some(w) = wal.as_ref() else { break };
         let active = seq_of(&w.path());
-        let mut log = |run: &mut SeamRun, kind: RK, rec: WalRecord| {
+        let mut after_ok = false;
+        let log = |run: &mut SeamRun, kind: RK, rec: WalRecord| {
             run.logged.push(Logged { kind, file_seq: active });
             if let Err(e) = w.log(&rec) {
                 run.errors.push(format!("log: {e}"));
@@ -239,7 +244,10 @@ pub fn run_seam(dir: &Path, dur: SDur, max_log_size: u64, hist: &[SOp], record: 
             SOp::Checkpoint => {
                 run.logged.push(Logged { kind: RK::Checkpoint, file_seq: active });
                 match w.checkpoint(TxId::new(1), EpochId::new(1)) {
-                    Ok(()) => run.checkpoint_seq = Some(seq_of(&w.path())),
+                    Ok(()) => {
+                        run.checkpoint_seq = Some(seq_of(&w.path()));
+                        after_ok = true;
+                    }
                     Err(e) => run.errors.push(format!("checkpoint: {e}")),
                 }
             }
@@ -249,8 +257,9 @@ pub fn run_seam(dir: &Path, dur: SDur, max_log_size: u64, hist: &[SOp], record: 
                 }
             }
             SOp::Sync => {
-                if let Err(e) = w.sync() {
-                    run.errors.push(format!("sync: {e}"));
+                match w.sync() {
+                    Ok(()) => after_ok = true,
+                    Err(e) => run.errors.push(format!("sync: {e}")),
                 }
             }
             SOp::Reopen => {
@@ -263,6 +272,9 @@ pub fn run_seam(dir: &Path, dur: SDur, max_log_size: u64, hist: &[SOp], record: 
         }
         // instants produced by io events during this op saw the record already started
         note_instants(&run, &mut started_at);
+        if after_ok {
+            promised.set(run.logged.len());
+        }
         if record {
             Recorder::with(|r| r.snapshot("op-boundary"));
         }
@@ -281,7 +293,7 @@ pub fn run_seam(dir: &Path, dur: SDur, max_log_size: u64, hist: &[SOp], record: 
                 last_syncs = ins.syncs;
                 synced = started;
             }
-            run.instants.push((ins, synced, started));
+            run.instants.push((ins, synced.max(promised_at.get(idx).copied().unwrap_or(0)), started));
         }
     }
     run
@@ -517,3 +529,34 @@ pub fn materialize(dir: &Path, img: &Image) {
     write_image(dir, img);
 }
 pub type FileMap = BTreeMap<String, Vec<u8>>;
+
+// ---------------------------------------------------------------------------
+// AdaptiveFlusher: "graceful shutdown with final flush guarantee" (flusher.rs)
+// ---------------------------------------------------------------------------
+
+/// Logs `n` records through an Adaptive-mode manager with a flusher whose interval never elapses,
+/// then shuts the flusher down (`explicit`: `shutdown()`, else Drop).  Returns
+/// (bytes in the log file, largest length reported durable by a wal.sync event, number of sync events).
+pub fn flusher_final_flush(dir: &Path, n: u64, explicit: bool) -> Result<(u64, u64, usize), String> {
+    use grafeo_adapters::storage::wal::AdaptiveFlusher;
+    use std::sync::Arc;
+    let _ = std::fs::remove_dir_all(dir);
+    let wal = Arc::new(
+        WalManager::with_config(dir, WalConfig { durability: DurabilityMode::Adaptive { target_interval_ms: 3_600_000 }, max_log_size: 64 * 1024 * 1024, compression: false })
+            .map_err(|e| e.to_string())?,
+    );
+    super::cross_start(dir);
+    let mut flusher = AdaptiveFlusher::new(Arc::clone(&wal), 3_600_000);
+    for i in 0..n {
+        wal.log(&data_record(i)).map_err(|e| e.to_string())?;
+    }
+    wal.log(&WalRecord::TxCommit { tx_id: TxId::new(1) }).map_err(|e| e.to_string())?;
+    if explicit {
+        flusher.shutdown()?;
+    }
+    drop(flusher);
+    let events = super::cross_stop();
+    let len = std::fs::metadata(wal.path()).map(|m| m.len()).unwrap_or(0);
+    let syncs: Vec<&(String, u64, u64)> = events.iter().filter(|e| e.0 == "wal.sync").collect();
+    Ok((len, syncs.iter().map(|e| e.1).max().unwrap_or(0), syncs.len()))
+}
